@@ -13,6 +13,7 @@
    ANY mixture of old and new bitfield pages yields the exact bitfield and the exact contiguous length.
    Partial: that the disk really holds such a mixture after a crash (flush schedule) and that has() is false
    beyond the length (no append ever sets a bit >= length) are established by the correspondence runs. *)
+From HC Require Import FixedWords FixedWordsFacts FixedWordsBytes FixedWordsDyn FixedWordsDyn2 FixedWordsIndex FixedWordsIndexTie FixedWordsEx.
 From HC Require Import SoundCoreLib SoundCore ReplicaDisk1.
 From HC Require Import CrashClear1.
 From HC Require Import Base Codec Crypto Storage Bitfield Oplog Merkle SrcConsts ConstTie ConstTieBits.
@@ -158,6 +159,132 @@ Theorem C08_source_functions :
       if truthy (reval env sc) then bf_skip_set (S (FMapPositive.PositiveMap.cardinal (bf_bits b))) b (reval env sf) else c)).
 Proof. exact FnTieContig.source_contig_functions_are_the_models. Qed.
 
+Theorem C08_words_get_is_the_bit :
+  forall (p : page) (i : N), i < 32768 -> fw_get p i = Ok (fw_bits p i).
+Proof. exact fw_get_bits. Qed.
+
+Theorem C08_words_set_range_exact_and_changed_flag :
+  forall (p : page) (start length : N) (v : bool),
+         page_wf p ->
+         start + length <= 32768 ->
+         exists p' : page,
+           fw_set_range p start length v = Ok (p', fbits_differ (fw_bits p) start (N.to_nat length) v) /\
+           page_wf p' /\
+           pg_dirty p' = pg_dirty p /\
+           (Forall w32 (pg_words p) -> Forall w32 (pg_words p')) /\
+           (forall k : N, fw_bits p' k = (if in_range start length k then v else fw_bits p k)).
+Proof. exact fw_set_range_spec. Qed.
+
+Theorem C08_words_changed_flag_is_bits_differ :
+  forall (p : page) (start length : N) (v : bool) (m : nmap unit) (base : N),
+         page_wf p ->
+         start + length <= 32768 ->
+         (forall k : N, k < 32768 -> nm_mem (base + k) m = fw_bits p k) ->
+         exists p' : page,
+           fw_set_range p start length v = Ok (p', bits_differ m (base + start) (N.to_nat length) v) /\
+           page_wf p' /\
+           pg_dirty p' = pg_dirty p /\
+           (Forall w32 (pg_words p) -> Forall w32 (pg_words p')) /\
+           (forall k : N, fw_bits p' k = (if in_range start length k then v else fw_bits p k)).
+Proof. exact fw_set_range_bits_differ. Qed.
+
+Theorem C08_words_set_range_panics_beyond_page :
+  forall (p : page) (start length : N) (v : bool),
+         0 < length -> 32768 < start + length -> exists s : string, fw_set_range p start length v = Panic s.
+Proof. exact fw_set_range_panics. Qed.
+
+Theorem C08_words_page_bytes :
+  forall (p : page) (m : nmap unit) (pi : N),
+         page_wf p ->
+         (forall k : N, k < 32768 -> nm_mem (pi * 32768 + k) m = fw_bits p k) ->
+         fw_to_bytes p = page_bytes m pi.
+Proof. exact fw_to_bytes_page_bytes. Qed.
+
+Theorem C08_words_from_data_loads_page :
+  forall (pi : N) (data : bytes) (k : N),
+         bytes_ok data = true ->
+         len data mod 4 = 0 ->
+         fw_bits (fw_from_data (pi * 4096) data) k =
+         (k <? 32768) && nm_mem (pi * 32768 + k) (load_bits nm_empty 0 data).
+Proof. exact fw_from_data_load_bits. Qed.
+
+Theorem C08_words_from_to_bytes :
+  forall (p : page) (k : N), page_wf p -> fw_bits (fw_from_data 0 (fw_to_bytes p)) k = fw_bits p k.
+Proof. exact fw_from_to_bytes. Qed.
+
+Theorem C08_dynamic_get_refines :
+  forall (d : dyn) (i : N), dyn_inv d -> dw_get d i = Ok (bf_get (dw_abs d) i).
+Proof. exact dw_get_abs. Qed.
+
+Theorem C08_dynamic_set_range_refines :
+  forall (d : dyn) (start length : N) (v : bool),
+         dyn_inv d ->
+         start mod 32768 + length <= u64_max ->
+         exists d' : dyn,
+           dw_set_range d start length v = Ok d' /\
+           dyn_inv d' /\
+           (forall k : N, bf_get (dw_abs d') k = bf_get (bf_set_range (dw_abs d) start length v) k) /\
+           bf_dirty (dw_abs d') = bf_dirty (bf_set_range (dw_abs d) start length v).
+Proof. exact dw_set_range_refines. Qed.
+
+Theorem C08_dynamic_flush_refines :
+  forall d : dyn,
+         dyn_inv d ->
+         (forall id : N, In id (dw_unflushed d) -> id * 4096 <= u64_max) ->
+         exists (d' : dyn) (ws : list (N * bytes)),
+           dw_flush d = Ok (d', ws) /\
+           map (fun w : N * bytes => SW Bitfield (fst w) (snd w)) ws = snd (bf_flush (dw_abs d)) /\
+           dyn_inv d' /\
+           dw_unflushed d' = [] /\
+           dw_biggest d' = dw_biggest d /\
+           (forall k : N, bf_get (dw_abs d') k = bf_get (fst (bf_flush (dw_abs d))) k) /\
+           bf_dirty (dw_abs d') = bf_dirty (fst (bf_flush (dw_abs d))).
+Proof. exact dw_flush_refines. Qed.
+
+Theorem C08_dynamic_open_refines :
+  forall f : file,
+         bytes_ok (f_content f) = true ->
+         let d := dw_open (f_len f) (f_content f) in
+         dyn_inv d /\
+         (forall i : N, bf_get (dw_abs d) i = bf_get (bf_open f) i) /\
+         bf_dirty (dw_abs d) = bf_dirty (bf_open f).
+Proof. exact dw_open_refines. Qed.
+
+Theorem C08_dynamic_index_of_true_refines :
+  forall (d : dyn) (pos : N), dyn_inv d -> dw_index_of d true pos = Ok (bf_index_of_true (dw_abs d) pos).
+Proof. exact dw_index_of_true_abs. Qed.
+
+Theorem C08_dynamic_last_index_of_true_refines :
+  forall (d : dyn) (pos : N),
+         dyn_inv d -> dw_last_index_of d true pos = Ok (bf_last_index_of_true (dw_abs d) pos).
+Proof. exact dw_last_index_of_true_abs. Qed.
+
+Theorem C08_dynamic_index_of_false_characterised :
+  forall (d : dyn) (pos : N),
+         dyn_inv d ->
+         exists o : option N,
+           dw_index_of d false pos = Ok o /\
+           match o with
+           | Some j =>
+               pos <= j /\
+               bf_get (dw_abs d) j = false /\ (forall k : N, pos <= k < j -> bf_get (dw_abs d) k = true)
+           | None =>
+               forall k : N,
+               pos <= k < (N.max (pos / 32768) (dw_biggest d) + 1) * 32768 -> bf_get (dw_abs d) k = true
+           end.
+Proof. exact dw_index_of_false_spec. Qed.
+
+Theorem C08_dynamic_index_of_false_incomplete :
+  exists (d : dyn) (pos j : N),
+           dyn_inv d /\ pos <= j /\ bf_get (dw_abs d) j = false /\ dw_index_of d false pos = Ok None.
+Proof. exact dw_index_of_false_complete_refuted. Qed.
+
+Theorem C08_dynamic_last_index_of_false_panics :
+  exists (d : dyn) (pos : N) (s : string),
+           dyn_inv d /\
+           (forall k : N, k <= pos -> bf_get (dw_abs d) k = true) /\ dw_last_index_of d false pos = Panic s.
+Proof. exact dw_last_index_of_false_no_panic_refuted. Qed.
+
 Print Assumptions C08_has_after_update.
 Print Assumptions C08_has_after_set_range.
 Print Assumptions C08_changed_pages_are_dirty.
@@ -176,3 +303,19 @@ Print Assumptions C08_replay_over_any_bit_mixture_with_clears.
 Print Assumptions C08_replica_has_exact.
 Print Assumptions C08_replica_contiguous_exact.
 Print Assumptions C08_source_functions.
+Print Assumptions C08_words_get_is_the_bit.
+Print Assumptions C08_words_set_range_exact_and_changed_flag.
+Print Assumptions C08_words_changed_flag_is_bits_differ.
+Print Assumptions C08_words_set_range_panics_beyond_page.
+Print Assumptions C08_words_page_bytes.
+Print Assumptions C08_words_from_data_loads_page.
+Print Assumptions C08_words_from_to_bytes.
+Print Assumptions C08_dynamic_get_refines.
+Print Assumptions C08_dynamic_set_range_refines.
+Print Assumptions C08_dynamic_flush_refines.
+Print Assumptions C08_dynamic_open_refines.
+Print Assumptions C08_dynamic_index_of_true_refines.
+Print Assumptions C08_dynamic_last_index_of_true_refines.
+Print Assumptions C08_dynamic_index_of_false_characterised.
+Print Assumptions C08_dynamic_index_of_false_incomplete.
+Print Assumptions C08_dynamic_last_index_of_false_panics.
